@@ -94,6 +94,31 @@ theorem cogas_point (η ratio : Rat → Rat) (rated lhv P : Rat) :
   · simp only [cogas, load]; ring
   · simp only [cogas]; ring
 
+/-- **The turbine powers follow the given split curves.** Where the two curves add up to the plant's output at this load (as the
+curves of a plant do), the gas turbine's power is the value of the gas-turbine curve and the steam turbine's that of the
+steam-turbine curve - at the curve points and between them, whatever the interpolants `g`, `s` are. -/
+theorem cogas_follows_split_curves (η g s fb : Rat → Rat) (rated lhv P : Rat)
+    (hsum : g (P / rated) + s (P / rated) = P) (hP : P ≠ 0) :
+    (cogas η (shareOf g s fb) rated lhv P).gas = g (P / rated) ∧
+    (cogas η (shareOf g s fb) rated lhv P).steam = s (P / rated) := by
+  have hne : g (P / rated) + s (P / rated) ≠ 0 := by rw [hsum]; exact hP
+  have hg : (cogas η (shareOf g s fb) rated lhv P).gas = g (P / rated) := by
+    simp only [cogas, shareOf, if_neg hne]
+    rw [hsum]; field_simp
+  refine ⟨hg, ?_⟩
+  have h := (cogas_point η (shareOf g s fb) rated lhv P).2.2
+  linarith
+
+/-- As found, the *share* was interpolated between the points: with the straight power curves gas 400 → 475 kW,
+steam 0 → 225 kW between 40 % and 70 % load of a 1000 kW plant, at 50 % load the gas turbine was given 446.4 kW where its
+curve says 425 kW (PCHIP through the shares gave 434.2 kW: off the curve as well). -/
+theorem legacy_share_off_curve :
+    shareLegacyLinear (2 / 5) 1 (7 / 10) (475 / 700) (1 / 2) * 500 ≠ 425 ∧
+    shareOf (fun l => 400 + (l - 2 / 5) * 250) (fun l => (l - 2 / 5) * 750) (fun _ => 1) (1 / 2) * 500 = 425 := by
+  constructor
+  · unfold shareLegacyLinear; norm_num
+  · unfold shareOf; norm_num
+
 /-- As found (D7) the gas-turbine figure was the share, not a power: at a 60 % share of
 1000 kW it reported 0.6 instead of 600 kW. -/
 theorem legacy_cogas_gas_is_ratio :
